@@ -91,6 +91,22 @@ type reqSpec struct {
 	query [][2]string // decoded query pairs, in order
 	host  string
 	body  string
+	junk  []string // malformed pieces of the client's query text (bad escape, ';'): url.URL.Query drops them and keeps the rest
+}
+
+// the query text the client sends: the pairs, escaped, with the malformed pieces around them
+func clientRaw(rq reqSpec) string {
+	var parts []string
+	if len(rq.junk) > 0 {
+		parts = append(parts, rq.junk[0])
+	}
+	if len(rq.query) > 0 {
+		parts = append(parts, rawQuery(rq.query))
+	}
+	if len(rq.junk) > 1 {
+		parts = append(parts, rq.junk[1:]...)
+	}
+	return strings.Join(parts, "&")
 }
 
 type observation struct {
@@ -347,8 +363,8 @@ func (rn *runner) hammer(cs cfgSpec, reqs []reqSpec, goroutines, iterations int)
 func wireRequest(cs cfgSpec, rq reqSpec) *http.Request {
 	var b bytes.Buffer
 	target := "/e"
-	if len(rq.query) > 0 {
-		target += "?" + rawQuery(rq.query)
+	if raw := clientRaw(rq); raw != "" {
+		target += "?" + raw
 	}
 	fmt.Fprintf(&b, "%s %s HTTP/1.1\r\nHost: %s\r\n", cs.method, target, rq.host)
 	for _, l := range rq.lines {
@@ -369,8 +385,8 @@ func wireRequest(cs cfgSpec, rq reqSpec) *http.Request {
 func (rn *runner) serve(cs cfgSpec, rq reqSpec) ([]observation, int) {
 	var b bytes.Buffer
 	target := "/e"
-	if len(rq.query) > 0 {
-		target += "?" + rawQuery(rq.query)
+	if raw := clientRaw(rq); raw != "" {
+		target += "?" + raw
 	}
 	fmt.Fprintf(&b, "%s %s HTTP/1.1\r\nHost: %s\r\n", cs.method, target, rq.host)
 	for _, l := range rq.lines {
@@ -383,7 +399,7 @@ func (rn *runner) serve(cs cfgSpec, rq reqSpec) ([]observation, int) {
 		panic(fmt.Sprintf("generator bug: request not readable: %v\n%q", err, b.String()))
 	}
 	req.RemoteAddr = remoteIP + ":4711"
-	if m, err := url.ParseQuery(req.URL.RawQuery); err != nil || !sameMap(m, group(rq.query)) {
+	if m, err := url.ParseQuery(req.URL.RawQuery); (err != nil && len(rq.junk) == 0) || !sameMap(m, group(rq.query)) {
 		panic("generator bug: query does not round-trip: " + req.URL.RawQuery)
 	}
 	rn.mu.Lock()
@@ -537,10 +553,10 @@ func (g *gen) emit(stream string, cs cfgSpec, rq reqSpec, o observation, status 
 				"endpoint_input_headers": cs.epH, "endpoint_input_query_strings": cs.epQ,
 				"backend_index": o.be, "backends": len(cs.bes),
 				"backend_input_headers": b.h, "backend_input_query_strings": b.q, "backend_url_pattern_query": b.static, "backend_graphql": b.gql, "backend_graphql_variant": b.gqlVar,
-				"request":  map[string]interface{}{"header_lines": rq.lines, "raw_query": rawQuery(rq.query), "query_pairs": rq.query, "host": rq.host, "body": rq.body, "remote_addr": remoteIP + ":4711"},
+				"request":  map[string]interface{}{"header_lines": rq.lines, "raw_query": clientRaw(rq), "query_pairs": rq.query, "host": rq.host, "body": rq.body, "remote_addr": remoteIP + ":4711"},
 				"observed": map[string]interface{}{"executor_headers": o.headers, "executor_raw_query": o.rawQuery, "executor_body_length": o.bodyLen, "executor_query": o.query, "parse_error": o.parseErr, "client_status": status},
 			}
-			canon := fmt.Sprintf("%s|%s|%d%v|%q|%q|%d/%d|%q|%q|%q|%q|%q|%q|%q", cs.adapter, cs.method, cs.concurrent, cs.sequential, cs.epH, cs.epQ, o.be, len(cs.bes), b.h, b.q, b.static+"|"+b.gql+fmt.Sprint(b.gqlVar), rq.lines, rq.query, rq.host, rq.body)
+			canon := fmt.Sprintf("%s|%s|%d%v|%q|%q|%d/%d|%q|%q|%q|%q|%q|%q|%q", cs.adapter, cs.method, cs.concurrent, cs.sequential, cs.epH, cs.epQ, o.be, len(cs.bes), b.h, b.q, b.static+"|"+b.gql+fmt.Sprint(b.gqlVar), rq.lines, rq.query, rq.host, rq.body+"|"+strings.Join(rq.junk, "&"))
 			nontrivial := len(cs.epH)+len(cs.epQ)+len(b.h)+len(b.q) > 0
 			g.w.Count("stream:" + stream)
 			g.w.Count("adapter:" + cs.adapter)
@@ -562,6 +578,12 @@ func (g *gen) emit(stream string, cs cfgSpec, rq reqSpec, o observation, status 
 			// the same call at the wire level (RawQuery text), where the query is involved at all
 			if b.gql != "" {
 				g.w.Count("graphql:" + b.gql)
+			}
+			if len(rq.junk) > 0 && o.be == 0 {
+				// the pairs given to the model are what the model's own parser reads from the client's text
+				g.w.Count("malformed_client_query")
+				g.w.Add(emit.App("CParse", emit.Str(clientRaw(rq)), emit.MultiMap(group(rq.query))),
+					map[string]interface{}{"parse_query": clientRaw(rq), "observed": group(rq.query), "client_query_of_previous_case": true}, "", "cparse|"+clientRaw(rq), true)
 			}
 			if b.gql == "" && (len(cs.epQ) > 0 || b.static != "") && (stream != "exhaustive" || g.tick()) {
 				wterm := emit.App("CWire", cs.adapter, emit.StrList(cs.epH), emit.StrList(cs.epQ), emit.StrList(b.h), emit.StrList(b.q),
